@@ -779,6 +779,9 @@ impl Property for C06 {
                 circ.regs = vec![cut, circ.n - cut];
             }
         }
+        if sub != "faults" && d.coin("defs", 1, 6) {
+            circ.defs = d.draw64("defs.seed") | 1;
+        }
         let n = circ.n;
         let method = *d.pick("method", &[Method::Default, Method::Cats, Method::Bss]);
         let parallel = if d.coin("par", 1, 2) { Some(d.choose("pd", 4)) } else { None };
